@@ -178,6 +178,8 @@ def exec_instr(ins, regs, B):
                 B.tanh(A[0])
             elif what == 'badindex':
                 A[0][ins['k']]
+            elif what == 'badsetitem':
+                A[0][dec_index(ins['ix'])] = A[1]
         except Exception:
             pass
         return None
@@ -262,10 +264,12 @@ class Reg(object):
 # reverse sweep through them is wrong or raises on a *fresh* graph, which is
 # C03's subject; each has a single-purpose probe family instead.  Remove an
 # entry when the class has been repaired in the repository.
-NON_T = set(['eigh_vectors', 'lu', 'svd', 'qr_full', 'fft'])
+NON_T = set(['fft'])
 # Classes repaired in the repository (see known_findings.json, "fixed" entries); they are
 # part of T again and the ordinary families generate them: setitem_bcast, dot_matvec,
-# outer, sum_axis0, reshape_noncontig, pow_negint.
+# outer, sum_axis0, reshape_noncontig, pow_negint, eigh_vectors.  lu, svd and qr_full were
+# outside T only for lack of evidence; a scan against forward mode and finite differences
+# found them in agreement, so they are in T as well.
 
 FAMILIES = ('poly', 'smooth', 'buffer', 'linalg', 'kwargs', 'nopb', 'tryop')
 PROBES = ('dot_matvec', 'outer_distinct', 'reshape_noncontig', 'sum_axis0', 'pow_negint', 'setitem_bcast')
@@ -842,7 +846,7 @@ class Gen(object):
             return False
         f = rng.choice(['inv', 'solve', 'det', 'logdet', 'trace', 'cholesky', 'qr', 'qr_full', 'eigh', 'lu',
                         'svd', 'qr', 'eigh', 'solve', 'diag', 'symvec'])
-        if self.truth_only and f in ('lu', 'svd', 'qr_full'):
+        if self.truth_only and f in NON_T:
             f = 'qr'
         if f == 'inv':
             self.emit('lin1', [A], (n, n), 1.0, f='inv')
@@ -880,14 +884,15 @@ class Gen(object):
                 amag = self.regs[A].mag
             shapes = {'qr': [(n, n), (n, n)], 'qr_full': [(n, n), (n, n)], 'eigh': [(n,), (n, n)],
                       'lu': [(n, n), (n, n), (n, n)], 'svd': [(n, n), (n,), (n, n)]}[f]
-            in_t = f in ('qr', 'eigh')
+            in_t = f not in NON_T
             T = self.emit('lin1', [A], None, 0.0, t=in_t, kind='tup', f=f)
             L = self.emit('unpack', [T], None, 0.0, t=in_t, kind='lst', elems=shapes)
             for k, sh in enumerate(shapes):
-                if f == 'eigh' and k == 1 and self.truth_only:
+                vec = f == 'eigh' and k == 1 and 'eigh_vectors' in NON_T
+                if vec and self.truth_only:
                     continue
                 if rng.random() < 0.8 or k == 0:
-                    self.emit('pick', [L], sh, amag, t=in_t and not (f == 'eigh' and k == 1), k=k, flat=True)
+                    self.emit('pick', [L], sh, amag, t=in_t and not vec, k=k, flat=True)
         return True
 
     # ---- kwargs / nopb / tryop ----------------------------------------------
@@ -932,8 +937,26 @@ class Gen(object):
 
     def block_tryop(self):
         rng = self.rng
-        w = rng.choice(['rpow', 'baddot', 'tanh', 'badindex'])
+        w = rng.choice(['rpow', 'baddot', 'tanh', 'badindex', 'badsetitem', 'badsetitem'])
         a = self.pick_reg()
+        if w == 'badsetitem':
+            # an in-place write that raises (index out of range, or a value that does not fit
+            # the slot) into a buffer the program allocated; the buffer is unchanged
+            n = rng.randint(2, 3)
+            buf = self.emit('zeros', [0], (n,), 1.0, t=True, p=True, kind='buf', shape=[n])
+            v = self.pick_reg(lambda q: len(q.sh) == 1 and q.sh[0] >= 3)
+            if v is not None and rng.random() < 0.5:
+                ix = slice(0, 2, None)          # three or more entries into two slots
+            else:
+                v = self.scalar_expr()
+                ix = n + rng.randint(0, 2)      # out of range
+            self.emit('try', [buf, v], None, 0.0, t=True, p=True, kind='none', what='badsetitem', ix=enc_index(ix))
+            s = self.scalar_expr()
+            self.emit('setitem', [buf, s], None, 0.0, t=True, p=True, kind='none', ix=enc_index(rng.randrange(n)))
+            self.regs[buf].mag = self.regs[s].mag
+            self.regs[buf].kind = 'v'
+            self.regs[buf].used = False
+            return True
         if w == 'baddot':
             m = self.pick_reg(lambda q: len(q.sh) == 2)
             v = self.pick_reg(lambda q: len(q.sh) == 1)
